@@ -71,6 +71,64 @@ def deep_repeat(rec, prop="C12"):
                            f"recursion limit: outcomes {outs}, a fresh parser: {fresh}"})
 
 
+def retry_with_more_stack(rec, prop="C12"):
+    """a parse that ran out of stack (called from deep inside other code, or under a low recursion
+    limit) is a failed parse like any other: asked again with enough stack -- the usual 'raise the limit
+    and retry' -- the same parser must answer what a fresh parser answers."""
+    import sys
+    from mathy_core.parser import ExpressionParser
+    from ..oracles import shadow as S
+
+    texts = ["(" * 150 + "x" + ")" * 150, "x" * 400 + " + 2y", "sgn(" * 90 + "4 - y" + ")" * 90, "2 * (" * 120 + "x + 1" + ")" * 120 + " = 7",
+             "3" + "(x + 1)" * 300, "-(" * 140 + "z" + ")" * 140 + "!", "(" * 130 + "4 +"]
+    old = sys.getrecursionlimit()
+    here = len(__import__("inspect").stack(0))
+    plain = getattr(ExpressionParser.parse, "__vmon_original__", ExpressionParser.parse)
+    for text in texts:
+        p = ExpressionParser()
+        for warm in ("4x + 2", "(x", "7 = y"):
+            try:
+                p.parse(warm)
+            except Exception:
+                pass
+        first = []
+        for room in (60, 110, 170):
+            sys.setrecursionlimit(here + room)
+            try:
+                plain(p, text)      # the monitors would decide 'internal error' under a limit we lowered ourselves
+                first.append("tree")
+            except RecursionError:
+                first.append("RecursionError")
+            except Exception as e:
+                first.append(type(e).__name__)
+            finally:
+                sys.setrecursionlimit(old)
+        sys.setrecursionlimit(max(old, 20000))
+        try:
+            outs = []
+            for q in (p, ExpressionParser()):
+                try:
+                    t = q.parse(text)
+                    try:
+                        outs.append(("tree", S.shadow(t)))
+                    except RecursionError:
+                        outs.append(("tree", None))
+                except RecursionError:
+                    outs.append(("RecursionError", None))
+                except Exception as e:
+                    outs.append((type(e).__name__, None))
+        finally:
+            sys.setrecursionlimit(old)
+        rec.ev()
+        if "RecursionError" in first:
+            rec.arm("history:retry-with-more-stack")
+        if outs[0] != outs[1]:
+            rec.violation(prop, "history/outcome", "a used parser answers differently from a fresh parser",
+                          {"text": text[:200], "retry_with_more_stack": True,
+                           "summary": f"'{text[:24]}...' ({len(text)} characters) asked with little stack left (outcomes {first}), then with plenty: "
+                           f"{outs[0][0]}, a fresh parser: {outs[1][0]}"})
+
+
 def run(rec, cfg):
     from mathy_core.parser import ExpressionParser
 
@@ -85,6 +143,8 @@ def run(rec, cfg):
         W8.typed(rec, rng, W8.TYPED_TEXTS)
     if cfg.shard == 1 % cfg.nshards:
         deep_repeat(rec)
+    if cfg.shard == 4 % cfg.nshards:
+        retry_with_more_stack(rec)
     # one parser per shard lives through every history of the shard (thousands of calls, hundreds
     # of failed parses of every kind); every other history runs on a parser of its own
     elder = ExpressionParser()
@@ -120,6 +180,9 @@ def run(rec, cfg):
 
 
 def replay(rec, cfg, w):
+    if w.get("retry_with_more_stack"):
+        retry_with_more_stack(rec)
+        return
     if w.get("deep_repeat"):
         deep_repeat(rec)
         return
